@@ -23,6 +23,7 @@ package trie
 //              remaining updates of the history.
 
 import (
+	"bytes"
 	"encoding/json"
 	"fmt"
 	"math/rand"
@@ -40,7 +41,7 @@ var vtClauses = []vrClause{
 			"full observation after EVERY step (Has on all 31 words of length <= 4 over {a,b} plus foreign-byte probes, ForEach multiset, Delete result, " +
 			"and the same on tries rebuilt through JSON into New() and into &Trie{} at every step, each rebuilt trie then receiving the remaining ops, with Delete results checked on the way and the same observations at the end of the history); " +
 			"thorough: additionally every history of <= 3 ops over the 14 strings of length 1..3 on {a,b} (28 choices per step) and every history of exactly 5 ops over the 6 strings of length 1..2 whose first operand begins with 'a' (124416 histories; the other half is their a<->b mirror image); " +
-			"two fixed histories using every byte value 0..255 as an edge label (256 one-byte members; 104 two-byte members and 3 deletes); then random histories of 200 ops on a 4-letter alphabet (every third one on the 8 bytes 00 22 7f 80 bf c0 c3 ff) with strings of length 1..5 (cheaper observation after each step: " +
+			"a fixed history with branches at depths 7..65 (members up to 70 bytes) and two fixed histories using every byte value 0..255 as an edge label (256 one-byte members; 104 two-byte members and 3 deletes); then random histories of 200 ops on a 4-letter alphabet (every third one on the 8 bytes 00 22 7f 80 bf c0 c3 ff) with strings of length 1..5 (cheaper observation after each step: " +
 			"Delete result, ForEach multiset, Has on the prefixes/extensions of the operand and a few pseudo-random words, direct JSON rebuild at every step, " +
 			"plus two tries that are JSON-round-tripped after every op), alternating with random 'deep' histories of 60 ops in which half of the fresh operands " +
 			"have length 8..40 and extensions grow up to 40 bytes (Delete/Has/ForEach/JSON on deep paths), until the time budget ends",
@@ -566,9 +567,16 @@ func vtGenHistory(g *vrGen) {
 	// Observation after every step makes the histories of exactly n ops cover
 	// all their prefixes; the shorter ones are enumerated first anyway so that
 	// the smallest failing history is reported.
-	done := vtEnumHistories(g, w2, []int{0, 1, 2, 3, 4}, false)
-	if done && g.Thorough() {
-		done = vtEnumHistories(g, w3, []int{1, 2, 3}, false) && vtEnumHistories(g, w2, []int{5}, true)
+	// Deep members first (always run): branches at depths around 16, 32 and 64, where an implementation that keeps
+	// its traversal state in a growing slice reallocates.
+	{
+		var deep []vtOp
+		long := bytes.Repeat([]byte{'a'}, 70)
+		for _, d := range []int{7, 8, 15, 16, 17, 31, 32, 33, 63, 64, 65} {
+			deep = append(deep, vtOp{b: append(append([]byte(nil), long[:d]...), 'b')}, vtOp{b: append(append([]byte(nil), long[:d]...), 'c', 'd')})
+		}
+		deep = append(deep, vtOp{b: long}, vtOp{del: true, b: append(append([]byte(nil), long[:16]...), 'b')}, vtOp{del: true, b: long[:40]})
+		g.Case(vtEncodeOps(deep))
 	}
 	// Every byte value as an edge label (the JSON form must keep all 256 apart), alone and below / above other bytes.
 	{
@@ -582,6 +590,10 @@ func vtGenHistory(g *vrGen) {
 		pairs = append(pairs, vtOp{del: true, b: []byte{0x80}}, vtOp{del: true, b: []byte{0xc3}}, vtOp{del: true, b: []byte{'k', 0xff}})
 		g.Case(vtEncodeOps(all))
 		g.Case(vtEncodeOps(pairs))
+	}
+	done := vtEnumHistories(g, w2, []int{0, 1, 2, 3, 4}, false)
+	if done && g.Thorough() {
+		done = vtEnumHistories(g, w3, []int{1, 2, 3}, false) && vtEnumHistories(g, w2, []int{5}, true)
 	}
 	g.Exhaustive(done)
 	// Random long histories.
